@@ -118,6 +118,70 @@ def _task(t):
     return {"st": st, "viols": viols, "shapes": shapes}
 
 
+def two_phase_specs(p, level):
+    """Histories with TWO prove() calls: part of the trace, prove(), the rest of the trace, prove() again;
+    the files of the second call must encode the complete trace."""
+    import itertools
+    V = [0, -1, p + 1, 2 ** 256 + 5] if level else [0, -1, 2 ** 256 + 5]
+    out = []
+    for k1, k2 in ((1, 1), (2, 1), (1, 2), (0, 2), (2, 0)):
+        kinds = list(itertools.product(("pub", "priv"), repeat=k1 + k2))
+        for kk in kinds:
+            for vals in itertools.product(V, repeat=k1 + k2) if k1 + k2 <= 2 else itertools.product(V[:2], repeat=k1 + k2):
+                vars_ = list(zip(kk, vals))
+                n1 = len(e5.lc_menu(k1, p))
+                n2 = len(e5.lc_menu(k1 + k2, p))
+                for c1 in ([(i, (i + 1) % n1, (i + 2) % n1) for i in range(0, n1, 2)] if n1 else [()]):
+                    for c2 in [(i, (i + 3) % n2, (2 * i + 1) % n2) for i in range(0, n2, 3)]:
+                        out.append({"vars1": vars_[:k1], "cons1": [c1], "vars2": vars_[k1:], "cons2": [c2]})
+    return out
+
+
+def _task2(t):
+    chunk, p = t
+    st = {"traces": 0, "transitions": 0, "files_decoded": 0, "satisfied_traces": 0, "two_prove_histories": 0}
+    viols = {}
+    for h in chunk:
+        _reset()
+        spec1 = {"vars": h["vars1"], "cons": h["cons1"]}
+        e5.build(_B, spec1, p)
+        _B.prove()
+        # second phase: declare the remaining variables, then constraints over ALL variables
+        vs = []
+        # e5.build needs the variable objects: rebuild them from the backend's own lists
+        allspec = {"vars": h["vars1"] + h["vars2"], "cons": h["cons2"]}
+        npub = npriv = 0
+        objs = []
+        for kind, val in h["vars1"]:
+            if kind == "pub":
+                npub += 1
+                objs.append(_B.LinearCombination({npub: 1}))
+            else:
+                npriv += 1
+                objs.append(_B.LinearCombination({-npriv: 1}))
+        for kind, val in h["vars2"]:
+            objs.append(_B.pubval(val) if kind == "pub" else _B.privval(val))
+        menu = e5.lc_menu(len(objs), p)
+        for tri in h["cons2"]:
+            a, b, c = (menu[i][1](_B, objs) for i in tri)
+            _B.add_constraint(a, b, c)
+        _B.prove()
+        st["traces"] += 1
+        st["two_prove_histories"] += 1
+        st["transitions"] += len(allspec["vars"]) + 2 + 2
+        st["files_decoded"] += 2
+        pub, priv, cons1 = e5.expected(spec1, p)
+        pub, priv, cons2 = e5.expected(allspec, p)
+        for klass, text in check_files(pub, priv, cons1 + cons2, p, None):
+            sig = {"klass": klass, "history": "two-prove"}
+            k = common.sig_hash(sig)
+            if k not in viols:
+                viols[k] = {"sig": sig, "count": 0, "what": "history %s (prove() after part 1 and again at the end): %s" % (h, text),
+                            "case": {"two": h}}
+            viols[k]["count"] += 1
+    return {"st": st, "viols": viols, "shapes": set()}
+
+
 def _e1_task(n):
     """Real gadget output through the serializer: E1 depth-1 programs traced with the snarkjs
     backend selected by pre-import (fresh process)."""
@@ -139,6 +203,8 @@ def run(ctx):
     nchunks = common.NCPU * 4
     chunks = [traces[i::nchunks] for i in range(nchunks)]
     results = common.pool_map(_task, [(c, p) for c in chunks if c], init=_init)
+    two = two_phase_specs(p, 1 if ctx.thorough else 0)
+    results += common.pool_map(_task2, [(two[i::common.NCPU], p) for i in range(common.NCPU) if two[i::common.NCPU]], init=_init)
     agg, shapes = {}, set()
     for r in results:
         common.merge_counts(agg, r["st"])
@@ -174,6 +240,12 @@ def run(ctx):
 def replay(case):
     _init()
     from ..recorder import BN128 as p
+    if "two" in case:
+        h = case["two"]
+        h = {"vars1": [tuple(v) for v in h["vars1"]], "vars2": [tuple(v) for v in h["vars2"]],
+             "cons1": [tuple(c) for c in h["cons1"]], "cons2": [tuple(c) for c in h["cons2"]]}
+        r = _task2(([h], p))
+        return {"history": h, "violations": [{"klass": v["sig"]["klass"], "what": v["what"]} for v in r["viols"].values()]}
     spec = case["spec"]
     spec = {"vars": [tuple(v) for v in spec["vars"]], "cons": [tuple(c) for c in spec["cons"]]}
     _reset()
